@@ -246,7 +246,7 @@ CONTRACTS = [RemoveRedundantCoefficients(), RemoveRedundantNames()]
 
 
 # ====================================================================== ndpoly.__new__ (assumed for now) and Cython
-eok = z3.Function("eok", I, B)                   # a storable exponent value: 0 <= e < 2**32 - 59 (e + 59 is a non-NUL code point)
+eok = z3.Function("eok", I, B)                   # a storable exponent value: e + KEY_OFFSET is a code point in (0, 0x10FFFF]
 
 
 def keyok(m, D):
@@ -256,8 +256,13 @@ def keyok(m, D):
 
 
 def eok_axioms():
+    """storable exponents: what ndpoly.__new__ accepts without raising (proved in contracts/codec.py:
+    0 <= e from its range test, e + KEY_OFFSET <= 0x10FFFF from numpy's unicode field names)"""
+    from engine.codecmodel import key_offset_of, MAXCP
+    import os
+    K = key_offset_of(os.environ.get("NUMPOLY_REPO"))
     e = z3.Int("e!eok")
-    return [eok(0), z3.ForAll([e], eok(e) == z3.And(0 <= e, e < 2 ** 32 - 59))]
+    return [eok(0), z3.ForAll([e], eok(e) == z3.And(0 <= e, e + K <= MAXCP))]
 
 default_names = z3.Function("default_names", I, Names)   # names generated from the `default_varname` option for width D
 compiled_dtype = z3.Function("compiled_dtype", DT, B)    # bool, uint32, int64, float64, complex128
